@@ -135,7 +135,7 @@ type c10Case struct {
 	Init    int    `json:"init"`
 	Letters []int  `json:"letters"`
 	Names   string `json:"history,omitempty"`
-	Sweep   []int  `json:"sweep,omitempty"` // method (0 StartPath, 1 SetCReg, 2 SetNReg, 3 SetCSel, 4 SetNSel; 5.. run of `argument` identical l / H / q calls), argument, incr, initial object
+	Sweep   []int  `json:"sweep,omitempty"` // method (0 StartPath, 1 SetCReg, 2 SetNReg, 3 SetCSel, 4 SetNSel; 5.. run of `argument` l / H / q / A / a calls), argument, incr, initial object
 }
 
 // c10Sweep: every value of the uint8 argument of the calls that take one, from the zero
@@ -144,8 +144,8 @@ type c10Case struct {
 func c10Sweep(w *mc.W) {
 	// runs of n identical drawing calls, n around the multiples of 256
 	for init := 0; init < 2; init++ {
-		for verb := 0; verb < 3; verb++ {
-			for _, n := range []int{254, 255, 256, 257, 258, 511, 512, 513, 1024, 1025} {
+		for verb := 0; verb < 5; verb++ {
+			for _, n := range []int{16, 17, 31, 32, 33, 254, 255, 256, 257, 258, 511, 512, 513, 1024, 1025} {
 				c10SweepOne(w, 5+verb, n, 0, init)
 			}
 		}
@@ -195,12 +195,20 @@ func c10SweepOne(w *mc.W, m, v, incr, init int) {
 	}
 	if m >= 5 {
 		// a run of v identical drawing calls decodes to v calls
-		c := []rec.Call{{M: rec.MRelL, A: [6]float32{1, -2}}, {M: rec.MAbsH, A: [6]float32{5}}, {M: rec.MRelQ, A: [6]float32{1, 2, 3, 4}}}[m-5]
-		name = fmt.Sprintf("StartPath; %d x %s; ClosePathEndPath", v, c.String())
+		c := []rec.Call{{M: rec.MRelL, A: [6]float32{1, -2}}, {M: rec.MAbsH, A: [6]float32{5}}, {M: rec.MRelQ, A: [6]float32{1, 2, 3, 4}},
+			{M: rec.MAbsA, LA: true, A: [6]float32{3, 4, 0.25, 5, 6}}, {M: rec.MRelA, SW: true, A: [6]float32{2, 2, 0.5, -1, 2}}}[m-5]
+		name = fmt.Sprintf("StartPath; %d x %s with the first operand counting up; ClosePathEndPath", v, c.String())
 		cs := c10Case{Init: init, Sweep: []int{m, v, incr, init}, Names: c10Inits[init] + ": " + name}
 		e.StartPath(0, 0, 0)
+		first := c.A[0]
+		nth := func(i int) rec.Call {
+			ci := c
+			ci.A[0] = first + float32(i%100)
+			return ci
+		}
 		for i := 0; i < v; i++ {
-			c.Apply(e)
+			ci := nth(i)
+			ci.Apply(e)
 		}
 		e.ClosePathEndPath()
 		b, err := e.Bytes()
@@ -215,7 +223,8 @@ func c10SweepOne(w *mc.W, m, v, incr, init int) {
 		}
 		ok := len(rd.Calls) == v+3
 		for i := 0; ok && i < v; i++ {
-			ok = rd.Calls[2+i].Equal(&c)
+			ci := nth(i)
+			ok = rd.Calls[2+i].Equal(&ci)
 		}
 		if !ok {
 			w.Fail("decodes-differently:sweep-run", fmt.Sprintf("[%s]: the stream (%d bytes) decodes to %d calls, expected %d", name, len(b), len(rd.Calls), v+3), cs)
@@ -286,7 +295,7 @@ func init() {
 		ID:    "C10",
 		Level: "model_checking",
 		Rule: "engine S: all histories of <=5 (thorough <=6; from the zero value also every history of 7 calls whose last five come from a 21-letter core alphabet) calls over a 29-letter alphabet of call classes (Bytes, CSel, NSel, LOD, SetCSel, SetNSel, SetCReg/SetNReg {ok, ok-incr, ADJ=7, incr with ADJ=1}, SetLOD, StartPath {ok, ADJ=7, ADJ=71}, SetCReg ADJ=130, SetNReg ADJ=64, L (x = 127.995, which rounds to 128), A, H, Y, Z, Reset {default, custom}) from 3 initial objects (zero value, Reset(default), after an error), " +
-			"plus every value 0..255 of the uint8 argument of StartPath, SetCReg, SetNReg (with and without increment), SetCSel, SetNSel, and runs of 254..1025 identical drawing calls; " +
+			"plus every value 0..255 of the uint8 argument of StartPath, SetCReg, SetNReg (with and without increment), SetCSel, SetNSel, and runs of 16..1025 drawing calls (l, H, q, A, a; first operand counting up); " +
 			"each executed on a real Encoder in lock step with the 3-state specification automaton; then breadth-first search to depth 12 (thorough 16) over canonical private states (reflective dump minus write-only buffers). " +
 			"In every state: Bytes errs iff the automaton is in error, the error value is the first one and sticky, Bytes twice equal, closed error-free histories decode to exactly the calls since the last Reset, zero-value and Reset(default) objects agree on bytes, errors and read-backs. " +
 			"states = distinct canonical Encoder states seen, transitions = calls executed in the BFS, evaluations = histories judged; non-trivial = history reaches the error state or contains a closed path",
